@@ -304,6 +304,26 @@ func genRBS(r *Rng) ([]byte, []rbsMethodModel) {
 				"overloads": []any{map[string]any{"method_type": map[string]any{"type_params": []any{}, "block": nil, "type": ft}}}})
 			models = append(models, rbsMethodModel{Class: full, Name: tname, Singleton: true, TParam: pt, TRet: rt})
 		}
+		if r.Chance(1, 3) {
+			// a class-local type alias (the same alias name means another type in another
+			// class, and may shadow a top-level alias of that name) and a typed probe whose
+			// parameter is declared through it
+			at := coreTypeNames[r.Intn(len(coreTypeNames)-1)]
+			rt := coreTypeNames[r.Intn(len(coreTypeNames))]
+			aname := "al_" + strings.ToLower(name[:3])
+			ft := rbsFunc(r, rbsSig{Untyped: true})
+			ft["required_positionals"] = []any{map[string]any{"name": "x", "type": map[string]any{"class": "alias", "name": "ident"}}}
+			ft["return_type"] = coreTypes[rt].rbs
+			probe := map[string]any{"member": "method_definition", "name": aname, "kind": "singleton", "visibility": "public", "comment": nil,
+				"overloads": []any{map[string]any{"method_type": map[string]any{"type_params": []any{}, "block": nil, "type": ft}}}}
+			decl := map[string]any{"declaration": "alias", "name": "ident", "type": coreTypes[at].rbs}
+			if r.Chance(1, 2) {
+				members = append(members, decl, probe)
+			} else {
+				members = append(members, probe, decl) // used before it is declared
+			}
+			models = append(models, rbsMethodModel{Class: full, Name: aname, Singleton: true, TParam: at, TRet: rt})
+		}
 		hasNested := false
 		for x := 0; x < r.Intn(3); x++ {
 			switch r.Intn(5) {
@@ -328,6 +348,10 @@ func genRBS(r *Rng) ([]byte, []rbsMethodModel) {
 		d["members"] = members
 		return d
 	}
+	if r.Chance(1, 4) {
+		// a top-level alias that class-local aliases of the same name shadow
+		decls = append(decls, map[string]any{"declaration": "alias", "name": "ident", "type": coreTypes[coreTypeNames[r.Intn(len(coreTypeNames)-1)]].rbs})
+	}
 	n := r.Range(1, 3)
 	used := map[string]bool{}
 	for i := 0; i < n; i++ {
@@ -336,6 +360,27 @@ func genRBS(r *Rng) ([]byte, []rbsMethodModel) {
 			continue
 		}
 		used[cn] = true
+		if r.Chance(1, 5) {
+			// the class is opened a first time with a few declarations that the probes do not
+			// depend on (an include, a constant, an attribute) and declared in full later on
+			var pre []any
+			for _, inc := range []string{"Comparable", "Enumerable", "Kernel"}[:r.Range(1, 3)] {
+				pre = append(pre, map[string]any{"member": "include", "name": "::" + inc})
+			}
+			if r.Chance(1, 2) {
+				pre = append(pre, map[string]any{"declaration": "constant", "name": "EARLY", "type": rbsType(r, false)})
+			}
+			if r.Chance(1, 2) {
+				pre = append(pre, map[string]any{"member": "attr_reader", "name": "early", "type": rbsType(r, false), "ivar_name": nil})
+			}
+			full := mkClass(cn, cn, 0)
+			first := map[string]any{"declaration": full["declaration"], "name": cn, "type_params": []any{}, "comment": nil, "members": pre}
+			if full["declaration"] == "class" {
+				first["super_class"] = nil
+			}
+			decls = append(decls, first, full)
+			continue
+		}
 		decls = append(decls, mkClass(cn, cn, 0))
 	}
 	b, _ := json.Marshal(decls)
@@ -514,6 +559,64 @@ func genC(r *Rng) ([]byte, []cMethodModel) {
 		fmt.Fprintf(&sb, "static mrb_value\n%s(mrb_state *mrb, mrb_value self)\n{\n  mrb_int a0;\n%s  %s\n}\n\n", fn, body, ret)
 		mm.ArgVals = vals
 		models = append(models, mm)
+	}
+	// one C function bound under a second (and third) Ruby name with an args spec of its own:
+	// each binding accepts what ITS spec says (only for bodies without an mrb_get_args format,
+	// where the spec is all there is)
+	if r.Chance(1, 3) {
+		var cands []int
+		for j, m := range models {
+			if m.Body == "spec-only" && m.Style != "mrbc_define_method" {
+				cands = append(cands, j)
+			}
+		}
+		for extra := 0; len(cands) > 0 && extra < r.Range(1, 2); extra++ {
+			base := models[cands[r.Intn(len(cands))]]
+			req, opt, rest := r.Intn(4), r.Intn(3), r.Chance(1, 4)
+			var parts []string
+			if req > 0 || (opt == 0 && !rest) {
+				parts = append(parts, fmt.Sprintf("MRB_ARGS_REQ(%d)", req))
+			}
+			if opt > 0 {
+				parts = append(parts, fmt.Sprintf("MRB_ARGS_OPT(%d)", opt))
+			}
+			if rest {
+				parts = append(parts, "MRB_ARGS_REST()")
+			}
+			if req == 0 && opt == 0 && !rest && r.Chance(1, 2) {
+				parts = []string{"MRB_ARGS_NONE()"}
+			}
+			alt := cMethodModel{Name: fmt.Sprintf("alt%d_%s", extra, base.Name), SkipOver: 99, Body: "spec-only", Spec: strings.Join(parts, "|"),
+				Min: req, Max: req + opt, ArgVals: []string{"1", "1", "1", "1", "1", "1", "1", "1", "1"}}
+			if rest {
+				alt.Max = -1
+			}
+			fn := "gadget_" + base.Name
+			var line string
+			switch r.Intn(4) {
+			case 0:
+				alt.Style, alt.Class = "mrb_define_class_method", true
+				line = fmt.Sprintf("  mrb_define_class_method(mrb, g, \"%s\", %s, %s);\n", alt.Name, fn, alt.Spec)
+			case 1:
+				alt.Style = "mrb_define_method"
+				line = fmt.Sprintf("  mrb_define_method(mrb, g, \"%s\", %s, %s);\n", alt.Name, fn, alt.Spec)
+			case 2:
+				alt.Style, alt.Class = "mrb_define_class_method_id", true
+				line = fmt.Sprintf("  mrb_define_class_method_id(mrb, g, MRB_SYM(%s), %s, %s);\n", alt.Name, fn, alt.Spec)
+			default:
+				alt.Style = "mrb_define_method_id"
+				line = fmt.Sprintf("  mrb_define_method_id(mrb, g, MRB_SYM(%s), %s, %s);\n", alt.Name, fn, alt.Spec)
+			}
+			alt.Body = "spec-only:shared-function"
+			if r.Chance(1, 2) {
+				old := defs.String()
+				defs.Reset()
+				defs.WriteString(line + old)
+			} else {
+				defs.WriteString(line)
+			}
+			models = append(models, alt)
+		}
 	}
 	sb.WriteString("void\nmrb_gadget_gem_init(mrb_state *mrb)\n{\n  struct RClass *g = mrb_define_class(mrb, \"Gadget\", mrb->object_class);\n")
 	sb.WriteString(defs.String())
